@@ -37,7 +37,9 @@ Clause by clause
                      (`DefaultAttrs`).  `T` = astropy's transform, a parameter.
 * regression         `skip_unrepaired_refuted` / `skip_unrepaired_raises` (F3), `excludedBool_unrepaired_trip`
                      (F4), `serialize_order_unrepaired_refuted` (F5): what the writer did before the fixes.
-* characters         `lex (render o) = toRaw o` is NOT a theorem: evaluated by the driver on every case.
+* characters         `lex (render o) = toRaw o` was not a theorem in the first build (evaluated by the driver on every
+                     case, as it still is); it is one now: `Props/C09Lex.lean` `lex_render`, under the decidable
+                     side condition `WellFormedText` on the metadata only.
 -/
 import RegionsVerif.Lemmas.Ds9Fixed
 
